@@ -14,6 +14,7 @@ package conf
 import (
 	"bytes"
 	"encoding/json"
+	"flag"
 	"fmt"
 	"math"
 	"math/big"
@@ -193,6 +194,38 @@ func TestVerifC08ConfigRoundTrip(t *testing.T) {
 
 		c08CheckRoundTrips(t, orig, "generated: "+desc)
 	})
+
+	// evidence: which parameters were never given a generated value by the free, type-directed pass
+	var never []string
+	total := 0
+	count := func(rt reflect.Type, scope string, planned map[string]bool) {
+		for i := 0; i < rt.NumField(); i++ {
+			f := rt.Field(i)
+			if !f.IsExported() || f.Tag.Get("json") == "-" || planned[f.Name] {
+				continue
+			}
+			total++
+			if c08FieldsGenerated[scope+f.Name] == 0 {
+				never = append(never, scope+f.Name)
+			}
+		}
+	}
+	count(reflect.TypeOf(Conf{}), "global.", c08GlobalPlanned)
+	count(reflect.TypeOf(Path{}), "path.", c08PathPlanned)
+	rec.Note(fmt.Sprintf("type-directed pass: %d parameters discovered by reflection, %d never generated in this run %v; planner-owned: %d global, %d path",
+		total, len(never), never, len(c08GlobalPlanned), len(c08PathPlanned)))
+	if len(never) > 0 && !t.Failed() && kit.EnvInt("C08_REQUIRE_ALL_FIELDS", 1) == 1 && c08RapidChecks() >= 1000 {
+		t.Errorf("harness: parameters never generated: %v", never)
+	}
+}
+
+func c08RapidChecks() int {
+	f := flag.Lookup("rapid.checks")
+	if f == nil {
+		return 0
+	}
+	n, _ := strconv.Atoi(f.Value.String())
+	return n
 }
 
 // ---------------------------------------------------------------------------------------------
